@@ -210,7 +210,7 @@ M += [
     # default argument evaluated at import (C20b)
     ("C20", L, "    U = np.asarray(U_matrix, float)\n    if CHECKS.activated: checks._check_rotation_matrix(U)\n\n    ttt", "    U = np.asarray(U_matrix, float)\n\n    ttt", None, "violation", "C20:site:xfab/laue.py:u_to_rod"),
     # cached group object keyed without the setting (C04b-like): instantiation outside __init__
-    ("C04", SG, "        obj = klass(cell_choice=cell_choice)", "        obj = klass()", None, "violation", "C04:lookup:instantiate"),
+    ("C04", SG, "        obj = klass(cell_choice=cell_choice)", "        obj = klass()", None, "violation", "C04:lookup:by-number"),
     # QR route with columns flipped (C13b) and the correct QR route
     ("C13", L, "    deformed_unit_cell = ubi_to_cell(ubi)\n    B_deformed = form_b_mat(deformed_unit_cell)\n    U = np.transpose(np.dot(B_deformed, ubi))\n\n    if CHECKS.activated: checks._check_rotation_matrix(U)\n\n    B = np.linalg.inv(ubi_matrix.dot(U))",
      "    U, B = np.linalg.qr(np.linalg.inv(ubi))\n    signs = np.sign(np.diag(B))\n    U = U * signs\n    B = B * signs\n\n    if CHECKS.activated: checks._check_rotation_matrix(U)\n", None, "violation", "C13:tau:laue.ubi_to_u_and_eps:qr-route"),
